@@ -1032,6 +1032,8 @@ func (c *Client) resend(conn net.Conn, seqNoOffset uint, seq *seq, space uint) e
 		}
 
 		if seqNo < seq.submitN && packet[0]>>4 == typePUBLISH {
+			// the value may be memory of the Persistence
+			packet = append([]byte(nil), packet...)
 			packet[0] |= dupeFlag
 		}
 
